@@ -408,10 +408,13 @@ class Suite:
     generate(rng, tier) -> [Scenario]; project(sc, ints) -> comparable; monitor(sc, ImplResult) -> [(what, key)]"""
 
     def __init__(self, name, generate, project=None, monitor=None, rule="", version="v2", race=False,
-                 model=True, batch_timeout=300, impl_ints=True):
+                 model=True, batch_timeout=300, impl_ints=True, variants=None):
         self.name, self.generate, self.project, self.monitor = name, generate, project, monitor
         self.rule, self.version, self.race, self.model = rule, version, race, model
         self.batch_timeout, self.impl_ints = batch_timeout, impl_ints
+        # variants(sc) -> list of encodings for the model (resolutions of a nondeterministic select); the implementation's
+        # projection must equal that of at least one of them (trace inclusion)
+        self.variants = variants
 
 
 def _ints(vals):
@@ -432,7 +435,16 @@ def run_suite(pid, suite, scenarios, binaries):
     impl = run_impl(binaries[key], lines, batch_timeout=suite.batch_timeout, tag=pid + suite.name)
     t_impl = time.time() - t0
     t0 = time.time()
-    model = run_model(lines) if suite.model else [None] * len(lines)
+    if suite.model and suite.variants is not None:
+        groups = [suite.variants(sc) for sc in scenarios]
+        flat = [e for g in groups for e in g]
+        flat_res = run_model(flat)
+        model, k = [], 0
+        for g in groups:
+            model.append(flat_res[k:k + len(g)])
+            k += len(g)
+    else:
+        model = run_model(lines) if suite.model else [None] * len(lines)
     t_model = time.time() - t0
     disagreements = 0
     monitor_fail = 0
@@ -453,7 +465,16 @@ def run_suite(pid, suite, scenarios, binaries):
                 pi = suite.project(sc, _ints(ir.vals) if suite.impl_ints else ir.vals)
             except Exception as e:  # malformed implementation output is a disagreement, not a crash of the check
                 pi = "unparsable: %r" % (e,)
-            pm = suite.project(sc, mr)
+            if suite.variants is not None:
+                pms = [suite.project(sc, v) for v in mr]
+                if all(x is SKIP for x in pms):
+                    skipped += 1
+                    continue
+                pm = next((x for x in pms if x is not SKIP and x == pi), None)
+                if pm is None:
+                    pm = next(x for x in pms if x is not SKIP)
+            else:
+                pm = suite.project(sc, mr)
             if pm is SKIP:
                 skipped += 1
                 continue
